@@ -111,11 +111,17 @@ func readCableLabsEbp(data []byte) (ebp *cableLabsEbp, err error) {
 	}
 
 	if ebp.ExtensionFlag() {
+		if int(index) >= len(data) {
+			return nil, gots.ErrInvalidEBPLength
+		}
 		ebp.ExtensionFlags = data[index]
 		index += uint8(1)
 	}
 
 	if ebp.SapFlag() {
+		if int(index) >= len(data) {
+			return nil, gots.ErrInvalidEBPLength
+		}
 		ebp.SapType = data[index]
 		index += uint8(1)
 	}
@@ -123,12 +129,19 @@ func readCableLabsEbp(data []byte) (ebp *cableLabsEbp, err error) {
 	if ebp.GroupingFlag() {
 		var group byte
 		var groupExtFlag bool
+		if int(index) >= len(data) {
+			return nil, gots.ErrInvalidEBPLength
+		}
 		groupExtFlag = data[index]&0x80 != 0
 		group = data[index] & 0x7F
 		ebp.Grouping = append(ebp.Grouping, group)
 		index += uint8(1)
 
 		for groupExtFlag {
+			if int(index) >= len(data) || index == 0xFF {
+				// the grouping chain runs past the end of the data (or of what the 8-bit cursor can address)
+				return nil, gots.ErrInvalidEBPLength
+			}
 			groupExtFlag = data[index]&0x80 != 0
 			group = data[index] & 0x7F
 			ebp.Grouping = append(ebp.Grouping, group)
@@ -137,6 +150,9 @@ func readCableLabsEbp(data []byte) (ebp *cableLabsEbp, err error) {
 	}
 
 	if ebp.TimeFlag() {
+		if int(index)+8 > len(data) {
+			return nil, gots.ErrInvalidEBPLength
+		}
 		ebp.TimeSeconds = binary.BigEndian.Uint32(data[index : index+4])
 		index += uint8(4)
 
@@ -145,6 +161,9 @@ func readCableLabsEbp(data []byte) (ebp *cableLabsEbp, err error) {
 	}
 
 	if ebp.PartitionFlag() {
+		if int(index) >= len(data) {
+			return nil, gots.ErrInvalidEBPLength
+		}
 		ebp.PartitionFlags = data[index]
 		index += uint8(1)
 	}
